@@ -18,9 +18,11 @@ def dg(x):
     return hashlib.sha1(json.dumps(x, sort_keys=True).encode()).hexdigest()[:12]
 
 
-def tcp_conn(idx, payload_segs, port=80, resp=None, syn_opts=False):
+def tcp_conn(idx, payload_segs, port=80, resp=None, syn_opts=False, cip=None, sip=None, cp=None):
     """frames of one connection: SYN, SYN+ACK, client data segments, optional server response"""
-    cip, sip, cp = (10, 50, idx // 250, 1 + idx % 250), (10, 60, 0, 1), 30000 + idx
+    cip = cip or (10, 50, idx // 250, 1 + idx % 250)
+    sip = sip or (10, 60, 0, 1)
+    cp = cp or 30000 + idx
     ic, is_ = 1000 * (idx + 1), 7000 * (idx + 1)
     opts = (b"\x02\x04\x05\xb4\x04\x02\x08\x0a" + (5000 + idx).to_bytes(4, "big") + b"\x00\x00\x00\x00\x01\x03\x03\x07") if syn_opts else b""
     fr = [c10.frame(cip, sip, cp, port, ic, 0, 0x02, opts=opts, ipid=idx * 50 + 1), c10.frame(sip, cip, port, cp, is_, ic + 1, 0x12, opts=opts, ipid=idx * 50 + 2, ttl=128)]
@@ -30,20 +32,23 @@ def tcp_conn(idx, payload_segs, port=80, resp=None, syn_opts=False):
         off += len(seg)
     if resp:
         fr.append(c10.frame(sip, cip, port, cp, is_ + 1, ic + 1 + off, 0x18, resp, ipid=idx * 50 + 40))
-    return {"ip": ".".join(map(str, cip)), "frames": fr}
+    ep = lambda a, p: "%s|%d" % (".".join(map(str, a)), p)
+    return {"ip": ep(cip, cp) + ">" + ep(sip, port), "eps": (ep(cip, cp), ep(sip, port)), "frames": fr}
 
 
 def attribute(crate, results, conns):
-    """per connection (by client address): digests of the non-empty results attributed to it, in order"""
+    """per connection (by its directed endpoint pair: client -> server, either direction of travel): digests of the non-empty
+    results attributed to it, in order"""
     out = [[] for _ in conns]
-    ips = {c["ip"]: i for i, c in enumerate(conns)}
+    by = {}
+    for i, c in enumerate(conns):
+        by[c["eps"]] = i
+        by[(c["eps"][1], c["eps"][0])] = by.get((c["eps"][1], c["eps"][0]), i)     # a mirrored connection in the set keeps its own entry
 
     def put(ep_src, ep_dst, what):
-        for ep in (ep_src, ep_dst):
-            ip = ep.split("|")[0]
-            if ip in ips:
-                out[ips[ip]].append(dg(what))
-                return
+        i = by.get((ep_src, ep_dst))
+        if i is not None:
+            out[i].append(dg(what))
     for r in results:
         if crate == "tls":
             put(r["src"], r["dst"], r)
@@ -88,29 +93,48 @@ def run(tier, v):
         "h2_zero": tcp_conn(8, two(bytes(h2["zero_then_ins"]), 45)), "h2_legit": tcp_conn(9, two(bytes(h2["legit"]), 62)),
         "h2_zero_fail": tcp_conn(10, two(bytes(h2["zero_fail"]), 40)), "h2_ins_fail": tcp_conn(11, two(bytes(h2["ins_fail"]), 55)),
     }
+    # near-collisions: connections whose 4-tuples differ in exactly one component (the flow tables must key on all four)
+    base = dict(cip=(10, 70, 0, 1), sip=(10, 60, 0, 9), cp=40000)
+    variants = {"": {}, "_dport": {"port_alt": True}, "_cport": {"cp": 40001}, "_sip": {"sip": (10, 60, 0, 10)}, "_cip": {"cip": (10, 70, 0, 2)}}
+    for k, (suffix, ch) in enumerate(variants.items()):
+        kw = dict(base)
+        kw.update({a: b for a, b in ch.items() if a != "port_alt"})
+        alt = ch.get("port_alt", False)
+        Hn = c10.hello("nc%s.example" % (suffix or "_base"))
+        Rn = ("GET /nc%s HTTP/1.1\r\nHost: nc%s.example\r\nUser-Agent: ua-nc%s\r\n\r\n" % (suffix, suffix, suffix)).encode()
+        Sn = ("HTTP/1.1 200 OK\r\nServer: srv-nc%s\r\n\r\nok" % suffix).encode()
+        lib["nc_tls" + suffix] = tcp_conn(20 + k, two(Hn, 35 + k), port=8443 if alt else 443, **kw)
+        lib["nc_h1" + suffix] = tcp_conn(30 + k, two(Rn, 20 + k), port=8080 if alt else 80, resp=Sn, **kw)
+        lib["nc_tcp" + suffix] = tcp_conn(40 + k, [b""], port=8080 if alt else 80, syn_opts=True, **kw)
     for c in lib.values():
         # drop the empty data segment of plain handshakes
         c["frames"] = [f for f in c["frames"] if not (len(f) == 54 and f[47] == 0x18)]
     sets = {
         "http": [("h2_ins_ref", "h2_bare_ref"), ("h2_zero", "h2_legit"), ("h2_ins_ref", "h2_legit"), ("h1", "h2_bare_ref"), ("h2_bare_ref", "h2_ins_ref", "h2_zero"), ("h1", "h2_zero", "h2_legit"),
-                 ("h2_zero_fail", "h2_legit"), ("h2_ins_fail", "h2_bare_ref"), ("h2_zero_fail", "h2_ins_ref", "h2_ins_fail")],
-        "tls": [("tls_a", "tls_b"), ("tls_a", "h1"), ("tls_a", "tls_b", "h2_legit")],
-        "tcp": [("tcp_a", "tcp_b"), ("tcp_a", "h1"), ("tcp_a", "tls_a", "tcp_b")],
-        "uni": [("tcp_a", "tls_a", "h2_ins_ref"), ("h2_ins_ref", "h2_bare_ref"), ("h1", "tls_b", "h2_zero"), ("h2_zero", "h2_legit"), ("h2_zero_fail", "h2_legit"), ("h2_ins_fail", "h2_bare_ref")],
+                 ("h2_zero_fail", "h2_legit"), ("h2_ins_fail", "h2_bare_ref"), ("h2_zero_fail", "h2_ins_ref", "h2_ins_fail")]
+                + [("nc_h1", "nc_h1" + x) for x in ("_dport", "_cport", "_sip", "_cip")],
+        "tls": [("tls_a", "tls_b"), ("tls_a", "h1"), ("tls_a", "tls_b", "h2_legit")] + [("nc_tls", "nc_tls" + x) for x in ("_dport", "_cport", "_sip", "_cip")],
+        "tcp": [("tcp_a", "tcp_b"), ("tcp_a", "h1"), ("tcp_a", "tls_a", "tcp_b")] + [("nc_tcp", "nc_tcp" + x) for x in ("_dport", "_cport", "_sip", "_cip")],
+        "uni": [("tcp_a", "tls_a", "h2_ins_ref"), ("h2_ins_ref", "h2_bare_ref"), ("h1", "tls_b", "h2_zero"), ("h2_zero", "h2_legit"), ("h2_zero_fail", "h2_legit"), ("h2_ins_fail", "h2_bare_ref"), ("nc_tls", "nc_tls_dport"), ("nc_h1", "nc_h1_cport"), ("nc_tls", "nc_h1_sip")],
     }
     cap = 4000 if tier == "thorough" else 150
     lines, meta = [], {}
     alone_needed = set()
+    sched_cache = {}
     states = trans = 0
     for crate, css in sets.items():
         for cs in css:
             lens = [len(lib[c]["frames"]) for c in cs]
-            scheds = []
-            r = vlib.tlc("MC_C07", pid=PID, workers=8, env={"VERIF_MODE": "sched", "VERIF_DEV": "none", "VERIF_LENS": ",".join(map(str, lens))}, timeout=1800,
-                         tag_sink=lambda tag, o: scheds.append(o["sched"]), heap="10g", coverage=False)
-            states += r.distinct
-            trans += r.generated
-            scheds.sort()
+            key = tuple(lens)
+            if key not in sched_cache:          # the schedules depend on the lengths only
+                acc = []
+                r = vlib.tlc("MC_C07", pid=PID, workers=8, env={"VERIF_MODE": "sched", "VERIF_DEV": "none", "VERIF_LENS": ",".join(map(str, lens))}, timeout=1800,
+                             tag_sink=lambda tag, o: acc.append(o["sched"]), heap="10g", coverage=False)
+                states += r.distinct
+                trans += r.generated
+                acc.sort()
+                sched_cache[key] = acc
+            scheds = list(sched_cache[key])
             if len(scheds) > cap:
                 rng.shuffle(scheds)
                 scheds = scheds[:cap]
@@ -162,7 +186,7 @@ def run(tier, v):
         "evaluations": len(meta), "distinct_nontrivial": n_nontriv,
         "rule": "connection sets %s; every order-preserving interleaving enumerated by TLC (capped at %d seeded samples per set in this tier); non-trivial = schedules in which some connection has a result" % ({k: len(x) for k, x in sets.items()}, cap),
         "samples": [{"analyzer": meta[0][0], "connections": meta[0][1], "schedule": meta[0][2]}], "exhaustive": tier == "thorough",
-    }, ["connections have distinct client addresses; their number is far below the table capacity", "results are attributed to a connection by the reported endpoints", "clock frozen through hook H1",
+    }, ["connections have distinct 4-tuples (some differ in a single component); their number is far below the table capacity", "results are attributed to a connection by the reported endpoint pair", "clock frozen through hook H1",
         "HTTP/2 connection starts are rendered by Hpack.tla / Http2.tla"])
 
 
